@@ -24,6 +24,7 @@ ASSUMPTIONS = [
     "the order in which a trade query lists the fills is not judged (bag comparison)",
     "the value of a fresh id is open (any integer id not below every earlier one); the textual reason of a rejection is not judged; the mutual order of the two notifications of one order is not judged",
     "the bought asset is not credited by the simulated exchange - the statement does not ask for it and the check does not demand it",
+    "a requester going away - also the last request sender, the client, being dropped while accepted orders are inside the latency window - is not a step of the exchange: the notifications of every accepted order must still reach whoever listens to the account stream; after such a hang-up the ledger is not observable and only the notification history is judged",
     "requests queued together (a burst) are handled in queue order (MockExchange::run takes them from a FIFO channel one at a time): a burst is judged as the composition of the specification's single steps; within a burst the balance notifications among themselves and the trade notifications among themselves must be in queue order, how the two kinds interleave is not judged (the projection pairs the j-th of either kind)",
 ]
 
@@ -75,10 +76,14 @@ def anomaly(line):
         return None
     if line.get("a") == "burst":
         its = line.get("reqs")
-        if not isinstance(its, list) or len(its) < 2:
+        hang = line.get("hang", 0)
+        if not isinstance(its, list) or len(its) < (1 if hang else 2) or hang not in (0, 1, 2):
             return "a burst line without its requests"
         for it in its:
-            if it.get("drop", 0) != 0 or it.get("a") in ("kill", "Reset", "burst"):
+            if hang and it.get("out") == "panic":
+                return "the call panicked: the MockExchange::run task panicked"
+            if (hang and not (it.get("a") == "open" and it.get("drop") in (1, 2))) or (not hang and it.get("drop", 0) != 0) \
+                    or it.get("a") in ("kill", "Reset", "burst"):
                 return "a burst may not contain %s" % it.get("a")
             d = _bad_answer(it)
             if d:
@@ -142,6 +147,10 @@ def burst_signature(line, pre, fails, j):
     na = sum(1 for it in its if it["out"] == "ok")
     nb = sum(1 for n in new if n["k"] == "balance")
     nt = sum(1 for n in new if n["k"] == "trade")
+    if line.get("hang"):
+        what = ("nothing_announced" if nb + nt == 0 else "balance_missing" if nb < nt else "trade_missing" if nt < nb
+                else "pattern") if "Notif11" in fails else "content"
+        return "hangup:%s:%s" % ("+".join(sorted(fails)).lower(), what)
     if "Notif11" in fails:
         what = ("balance_missing" if nb < na else "trade_missing" if nt < na else "balance_extra" if nb > na
                 else "trade_extra" if nt > na else "pattern")
@@ -184,14 +193,18 @@ def scenario_of(seg):
     if r.get("late"):
         init["late"] = 1
     keys = ("a", "t", "side", "p", "q", "instr", "kind", "since", "drop")
-    evs = []
+    evs, hang = [], 0
     for l in seg[1:]:
-        if l["a"] == "burst":
+        if l["a"] == "burst" and l.get("hang"):
+            hang = l["hang"]
+            for it in l["reqs"]:
+                evs.append(dict({k: it[k] for k in keys}, bq=0, hg=1))
+        elif l["a"] == "burst":
             for n, it in enumerate(l["reqs"]):
                 evs.append(dict({k: it[k] for k in keys}, bq=1 if n else 0))
         else:
             evs.append({k: l[k] for k in keys})
-    return {"init": init, "evs": evs}
+    return {"init": init, "evs": evs, "hang": hang}
 
 
 def validate(ctx, trace_path, mode, label):
@@ -224,8 +237,11 @@ def validate(ctx, trace_path, mode, label):
             pre = seg[-2]["post"]
             new = _new_notifs(line, pre)
             sig = burst_signature(line, pre, fails, at.get(b, 0))
-            desc = "fee %d%%, latency %d ms, balances %s, %d fill(s) so far: %d requests QUEUED TOGETHER%s: %s; afterwards balances %s, %d fill(s), %d balance and %d trade notification(s) more (balances announced: %s); breaks %s at request %d of the burst [%s/%s, line %d]" % (
+            desc = "fee %d%%, latency %d ms, balances %s, %d fill(s) so far: %d requests %s%s: %s; afterwards balances %s, %d fill(s), %d balance and %d trade notification(s) more (balances announced: %s); breaks %s at request %d of the burst [%s/%s, line %d]" % (
                 world["fee"], world["lat"], _bal(pre["bal"]), len(pre["trades"]), len(line["reqs"]),
+                ("sent without waiting for an answer, then the LAST REQUEST SENDER WAS DROPPED inside the latency window (%s; the ledger is "
+                 "not observable afterwards, the figures repeat the last observation)" % ("at once" if line["hang"] == 1 else "after the exchange handled them"))
+                if line.get("hang") else "QUEUED TOGETHER",
                 " before the exchange task was started" if (world.get("late") and len(seg) == 2) else "", _burst_desc(line),
                 _bal(line["post"]["bal"]), len(line["post"]["trades"]),
                 sum(1 for n in new if n["k"] == "balance"), sum(1 for n in new if n["k"] == "trade"),
@@ -246,11 +262,29 @@ def validate(ctx, trace_path, mode, label):
     bc = ctx.cov.setdefault("bursts", {"validated": 0, "requests": 0, "by_length": {}, "two_or_more_accepted_spending_one_asset": 0,
                                        "accepted_then_rejected_for_funds": 0, "query_between_two_accepted": 0,
                                        "queued_before_the_exchange_started": 0, "late_started_exchanges": 0})
-    prev = None
+    prev = reset = None
     for l in keep:
         if l.get("a") == "Reset":
+            reset = l
             bc["late_started_exchanges"] += 1 if l.get("late") else 0
-        if l.get("a") == "burst":
+        if l.get("a") == "burst" and l.get("hang"):
+            hc = ctx.cov.setdefault("hangups", {"validated": 0, "requests": 0, "after_timed_out_requester": 0, "fire_and_forget": 0,
+                                                "at_once": 0, "after_the_exchange_handled_them": 0,
+                                                "with_an_order_announced_after_the_hang_up_and_latency_above_0": 0,
+                                                "on_an_exchange_started_late": 0})
+            new = l["post"]["notif"][len(prev["post"]["notif"]):] if prev is not None else []
+            hc["validated"] += 1
+            hc["requests"] += len(l["reqs"])
+            hc["after_timed_out_requester"] += any(it["drop"] == 2 for it in l["reqs"])
+            hc["fire_and_forget"] += any(it["drop"] == 1 for it in l["reqs"])
+            hc["at_once" if l["hang"] == 1 else "after_the_exchange_handled_them"] += 1
+            lat_of = reset
+            hc["with_an_order_announced_after_the_hang_up_and_latency_above_0"] += bool(new) and lat_of["lat"] > 0
+            hc["on_an_exchange_started_late"] += bool(prev is not None and prev.get("a") == "Reset" and prev.get("late"))
+            for it in l["reqs"]:
+                k = "hangup:open/%s/lost" % it["side"]
+                arms[k] = arms.get(k, 0) + 1
+        elif l.get("a") == "burst":
             its = l["reqs"]
             bc["validated"] += 1
             bc["requests"] += len(its)
@@ -395,6 +429,11 @@ def check(ctx):
                   "query_between_two_accepted", "queued_before_the_exchange_started"):
             if not bc.get(k):
                 raise vlib.ToolError("no burst of kind `%s` was recorded: the burst stage is vacuous" % k)
+        hc = ctx.cov.get("hangups", {})
+        for k in ("validated", "after_timed_out_requester", "fire_and_forget", "at_once", "after_the_exchange_handled_them",
+                  "with_an_order_announced_after_the_hang_up_and_latency_above_0"):
+            if not hc.get(k):
+                raise vlib.ToolError("no hang-up of kind `%s` was recorded: the hang-up stage is vacuous" % k)
     flush(ctx)
     return ctx.finish()
 
